@@ -123,6 +123,13 @@ pub trait Property: Sync {
     fn workers(&self) -> usize {
         16
     }
+    /// Runs per job of the coverage-guided phase (16 jobs); 0 = none in this tier.
+    fn fuzz_runs(&self, tier: Tier) -> u64 {
+        match tier {
+            Tier::Quick => 0,
+            Tier::Thorough => 6000,
+        }
+    }
     /// Generator features outside this property's domain (restrictions stated by the property's
     /// quantifier, not findings). Always off.
     fn domain_off(&self) -> Vec<&'static str> {
@@ -956,6 +963,13 @@ pub fn supervise<P: Property>(p: &P, opts: &RunOpts) -> i32 {
         }
     }
 
+    // 3b. coverage-guided phase (thorough tier): libFuzzer drives the same strategy and oracle
+    let fuzz_evidence = if sup.violations.is_empty() {
+        fuzz_phase(p, opts, &features_strict, &strict_tolerated, &tolerated, &mut agg, &mut sup)
+    } else {
+        Value::Null
+    };
+
     // 4. evidence + verdict
     let distinct = hashes.len() as u64;
     let wall = start.elapsed().as_secs_f64();
@@ -987,6 +1001,7 @@ pub fn supervise<P: Property>(p: &P, opts: &RunOpts) -> i32 {
             "strict_domain_features_off": features_strict.off,
             "workers": nworkers,
             "worker_restarts_after_crash": restarts,
+            "fuzz": fuzz_evidence,
             "exhaustive": false
         },
         "assumptions": p.assumptions(),
@@ -1044,6 +1059,224 @@ pub fn supervise<P: Property>(p: &P, opts: &RunOpts) -> i32 {
     }
     0
 }
+
+/// Coverage-guided phase. Runs the libFuzzer targets built from engine/fuzz (by ./check in the
+/// thorough tier) as 16 independent processes sharing one corpus directory, each with its own
+/// `-seed` and a fixed `-runs`; every case a target reports, and every case a target died on, is
+/// re-judged in an isolated process of the normal engine before it counts.
+fn fuzz_phase<P: Property>(
+    p: &P,
+    opts: &RunOpts,
+    features: &Features,
+    strict_tolerated: &[String],
+    crash_tolerated: &[String],
+    agg: &mut WorkerResult,
+    sup: &mut Supervisor,
+) -> Value {
+    let id = p.id();
+    let runs: u64 = std::env::var("VERIF_FUZZ_RUNS").ok().and_then(|s| s.parse().ok()).unwrap_or_else(|| p.fuzz_runs(opts.tier));
+    if runs == 0 || !crate::fuzzing::fuzzable(id) {
+        return Value::Null;
+    }
+    let bindir = std::env::var("VERIF_FUZZ_BIN_DIR")
+        .map(PathBuf::from)
+        .unwrap_or_else(|_| Path::new(VERIF_ROOT.as_str()).join("work/target-fuzz/x86_64-unknown-linux-gnu/release"));
+    let mut targets = vec!["prop"];
+    if id == "C03" {
+        targets.push("raw_doc");
+    }
+    let mut out = vec![];
+    for target in targets {
+        let bin = bindir.join(target);
+        if !bin.exists() {
+            sup.inconclusive.push(format!("fuzz target {} is not built ({})", target, bin.display()));
+            continue;
+        }
+        let dir = work_dir(id).join(format!("fuzz-{}", target));
+        let _ = std::fs::remove_dir_all(&dir);
+        let corpus = dir.join("corpus");
+        std::fs::create_dir_all(&corpus).expect("fuzz corpus dir");
+        let max_len: usize = if target == "raw_doc" { 2048 } else { 4096 };
+        // starting corpus: pseudo-random files of several lengths (libFuzzer ramps lengths slowly
+        // from an empty corpus); for the raw target also a few Markdown snippets
+        let mut x = hash64(format!("{}-{}-{}", id, target, opts.seed).as_bytes()) | 1;
+        for i in 0..32usize {
+            let len = [64, 256, 1024, max_len][i % 4];
+            let mut buf = Vec::with_capacity(len + 8);
+            while buf.len() < len {
+                x ^= x << 13;
+                x ^= x >> 7;
+                x ^= x << 17;
+                buf.extend_from_slice(&x.wrapping_mul(0x2545F4914F6CDD1D).to_le_bytes());
+            }
+            buf.truncate(len);
+            let _ = std::fs::write(corpus.join(format!("seed-{:02}", i)), &buf);
+        }
+        if target == "raw_doc" {
+            for (i, snip) in RAW_SNIPPETS.iter().enumerate() {
+                let _ = std::fs::write(corpus.join(format!("md-{:02}", i)), snip.as_bytes());
+            }
+        }
+        let cfg = crate::fuzzing::FuzzCfg {
+            id: id.to_string(),
+            tier: opts.tier,
+            features: features.clone(),
+            tolerated: strict_tolerated.to_vec(),
+            dir: dir.to_string_lossy().to_string(),
+        };
+        let cfg_path = dir.join("cfg.json");
+        std::fs::write(&cfg_path, serde_json::to_vec(&cfg).unwrap()).unwrap();
+        let jobs = 16u64;
+        let started = Instant::now();
+        let mut children = vec![];
+        for j in 0..jobs {
+            let log = std::fs::File::create(dir.join(format!("job-{}.log", j))).unwrap();
+            let child = Command::new(&bin)
+                .arg(&corpus)
+                .arg(format!("-runs={}", runs))
+                .arg(format!("-seed={}", opts.seed * 64 + j + 1))
+                .arg(format!("-max_len={}", max_len))
+                .arg("-len_control=0")
+                .arg("-timeout=120")
+                .arg("-rss_limit_mb=4096")
+                .arg(format!("-artifact_prefix={}/", dir.display()))
+                .env("VERIF_FUZZ_CFG", &cfg_path)
+                .env("VERIF_QUIET_PANICS", "1")
+                .env("RAYON_NUM_THREADS", "2")
+                .current_dir(&dir)
+                .stdout(Stdio::null())
+                .stderr(Stdio::from(log))
+                .spawn();
+            match child {
+                Ok(c) => children.push(c),
+                Err(e) => sup.inconclusive.push(format!("cannot start fuzz target {}: {}", target, e)),
+            }
+        }
+        // fixed work per job; the wall-clock bound only catches a stuck campaign
+        let budget = Duration::from_secs(900 + runs / 4);
+        for mut c in children {
+            loop {
+                match c.try_wait() {
+                    Ok(Some(_)) => break,
+                    Ok(None) => {
+                        if started.elapsed() > budget {
+                            let _ = c.kill();
+                            let _ = c.wait();
+                            sup.inconclusive.push(format!("fuzz job of {} exceeded its wall-clock bound and was stopped", target));
+                            break;
+                        }
+                        std::thread::sleep(Duration::from_millis(100));
+                    }
+                    Err(_) => break,
+                }
+            }
+        }
+        // counters
+        let mut tot: BTreeMap<String, u64> = BTreeMap::new();
+        let mut found_files = vec![];
+        let mut journals = vec![];
+        if let Ok(rd) = std::fs::read_dir(&dir) {
+            for e in rd.flatten() {
+                let name = e.file_name().to_string_lossy().to_string();
+                if name.starts_with("stats-") {
+                    if let Some(v) = std::fs::read(e.path()).ok().and_then(|b| serde_json::from_slice::<Value>(&b).ok()) {
+                        if let Some(o) = v.as_object() {
+                            for (k, n) in o {
+                                *tot.entry(k.clone()).or_insert(0) += n.as_u64().unwrap_or(0);
+                            }
+                        }
+                    }
+                } else if name.starts_with("current-") {
+                    journals.push(e.path());
+                }
+            }
+        }
+        if let Ok(rd) = std::fs::read_dir(dir.join("found")) {
+            for e in rd.flatten() {
+                found_files.push(e.path());
+            }
+        }
+        found_files.sort();
+        journals.sort();
+        let corpus_size = std::fs::read_dir(&corpus).map(|r| r.count()).unwrap_or(0);
+        let mut confirmed = 0u64;
+        for f in &found_files {
+            match isolate_case(id, f, Duration::from_secs(120)) {
+                Isolated::Verdict(Verdict::Fail { sig, detail }) => {
+                    if strict_tolerated.iter().any(|pat| sig_matches(pat, &sig)) {
+                        continue;
+                    }
+                    confirmed += 1;
+                    if let Ok(case) = load_replay_case(f) {
+                        let path = write_replay(id, &case, &sig, &detail);
+                        sup.violations.push((sig, path, format!("(found by the coverage-guided phase, target {})\n{}", target, detail)));
+                    }
+                }
+                Isolated::Crashed { status, stderr_tail } => {
+                    let sig = crash_signature(&stderr_tail, &status);
+                    if crash_tolerated.iter().any(|pat| sig_matches(pat, &sig)) {
+                        *agg.excluded_known.entry(sig).or_insert(0) += 1;
+                    } else if let Ok(case) = load_replay_case(f) {
+                        confirmed += 1;
+                        let path = write_replay(id, &case, &sig, &stderr_tail);
+                        sup.violations.push((sig, path, stderr_tail));
+                    }
+                }
+                Isolated::TimedOut => sup.inconclusive.push(format!("fuzz-found case {} times out in isolation", f.display())),
+                Isolated::Verdict(_) => sup.inconclusive.push(format!(
+                    "the fuzz target reported {} but the case passes in an isolated process of the normal engine",
+                    f.display()
+                )),
+            }
+        }
+        for j in &journals {
+            // a job died (crash, libFuzzer timeout, OOM) while running this case
+            let status = "fuzz job died".to_string();
+            let tail = String::new();
+            let before = sup.violations.len();
+            handle_crash(p, id, j, &status, &tail, crash_tolerated, agg, sup);
+            if p.hang_is_violation() {
+                // handle_crash files a hang as inconclusive; for C03 / C17 it is the property
+                if let Some(pos) = sup.inconclusive.iter().position(|l| l.contains("hangs in isolation")) {
+                    sup.inconclusive.remove(pos);
+                    let sig = "hang|watchdog".to_string();
+                    if !crash_tolerated.iter().any(|pat| sig_matches(pat, &sig)) {
+                        let case: Value = std::fs::read(j.with_extension("crash.json")).ok().and_then(|b| serde_json::from_slice(&b).ok()).unwrap_or(Value::Null);
+                        let path = write_replay(id, &case, &sig, "case still running after 120 s in isolation");
+                        sup.violations.push((sig, path, "hang".into()));
+                    }
+                }
+            }
+            confirmed += (sup.violations.len() - before) as u64;
+        }
+        out.push(json!({
+            "target": target,
+            "engine": "libFuzzer (cargo-fuzz 0.13, -O, no sanitizer), bytes -> proptest strategy via pass-through RNG; oracle in target",
+            "jobs": jobs,
+            "runs_per_job": runs,
+            "executions": tot.get("execs").cloned().unwrap_or(0),
+            "nontrivial_executions": tot.get("nontrivial").cloned().unwrap_or(0),
+            "discards": tot.get("discards").cloned().unwrap_or(0),
+            "tolerated": tot.get("tolerated").cloned().unwrap_or(0),
+            "corpus_files_at_end": corpus_size,
+            "reported_by_target": found_files.len(),
+            "jobs_died_on_a_case": journals.len(),
+            "confirmed_violations": confirmed,
+            "wall_s": started.elapsed().as_secs_f64(),
+        }));
+        agg.evaluations += tot.get("execs").cloned().unwrap_or(0);
+        agg.discards += tot.get("discards").cloned().unwrap_or(0);
+    }
+    Value::Array(out)
+}
+
+const RAW_SNIPPETS: &[&str] = &[
+    "# title\n\ntext [link](other) more\n\n- item\n  - nested\n\n> quote\n",
+    "---\nkey: value\n---\n\n# a\n\n## b\n\n[ref](other)\n\n| a | b |\n|---|---|\n| 1 | 2 |\n",
+    "1. one\n2. two\n\n   para\n\n```rust\ncode\n```\n\n[[other]] and [[other|text]]\n",
+    "- [x] task\n- * inner\n\n***\n\nsetext\n======\n\n<div>html</div>\n\n![img](pic.png)\n",
+    "> - q\n>   1. n\n>\n> ```\n> c\n> ```\n\n\\* escaped \\_ text &amp; entity <b>inline</b>\n",
+];
 
 fn tail_file(p: &Path, n: usize) -> String {
     let s = std::fs::read_to_string(p).unwrap_or_default();
